@@ -10,9 +10,10 @@ VARIABLES failed,    \* ids of records that may be missing: their own write fail
                      \* initialised for them (a failure during the call while no file was open yet: "opening or creating a
                      \* file"). A record whose call only saw a failing ROTATION is written to the file that is still open.
           active,    \* a file is open: a record of this run has been written by a call without any injected failure
+          starts,    \* stream positions at which a logger was started (after a failed open the next start finds no current file)
           seenids,   \* ids seen on disk at the previous observation
           clearId    \* number of accepted records when the failures ended (-1: not yet)
-fvars == <<bvars, failed, active, seenids, clearId>>
+fvars == <<bvars, failed, active, seenids, clearId, starts>>
 
 Ids(s) == {s[j][1] : j \in 1..Len(s)}
 Errs(e) == SelectSeq(e.errs, LAMBDA x : x # "Palette")
@@ -21,8 +22,9 @@ Blocking(e) == \E j \in 1..Len(e.injp) : e.injp[j] \in {"fs:write", "fs:open", "
 
 Upd ==
     LET e == E IN
-    IF e.ev = "Begin" THEN failed' = {} /\ seenids' = {} /\ clearId' = -1 /\ active' = FALSE
-    ELSE /\ failed' = IF e.ev = "Log" /\ e.inj > 0 /\ (~active \/ \E j \in 1..Len(e.injp) : e.injp[j] = "fs:write")
+    IF e.ev = "Begin" THEN failed' = {} /\ seenids' = {} /\ clearId' = -1 /\ active' = FALSE /\ starts' = {}
+    ELSE /\ starts' = IF e.ev = "Start" THEN starts \cup {Len(acc)} ELSE starts
+         /\ failed' = IF e.ev = "Log" /\ e.inj > 0 /\ (~active \/ \E j \in 1..Len(e.injp) : e.injp[j] = "fs:write")
                        THEN failed \cup {e.id} ELSE failed
          /\ active' = IF e.ev \in {"Start", "Stop", "Reset"} THEN FALSE
                        ELSE IF e.ev = "Log" /\ Ok(e) /\ e.inj = 0 THEN TRUE ELSE active
@@ -75,7 +77,10 @@ Check ==
                                       (Len(RO[j].recs) > 0 /\ Len(RO[j+1].recs) > 0 /\ RO[j+1].recs[1][1] > clearId + 1)
                                          => (Bytes(RO[j].recs) > cc.size
                                              \/ RO[j].recs[Len(RO[j].recs)][1] \in forced'
-                                             \/ RO[j+1].recs[1][1] - 1 \in forced'))
+                                             \/ RO[j+1].recs[1][1] - 1 \in forced'
+                                             \* (a restart: after a failed open the renamed file was still in use and the
+                                             \* new logger finds no current file to continue)
+                                             \/ RO[j+1].recs[1][1] - 1 \in starts'))
                            /\ Cnt(5, TRUE)
                       ELSE TRUE
                    \* ... and cleanup resumes (also in the cleanup thread): if a rotated file was begun AND closed after the
@@ -92,7 +97,7 @@ Check ==
                       ELSE TRUE
               ELSE TRUE
 
-Init == BaseInit /\ failed = {} /\ active = FALSE /\ seenids = {} /\ clearId = -1
+Init == BaseInit /\ failed = {} /\ active = FALSE /\ seenids = {} /\ clearId = -1 /\ starts = {}
 Next == BaseStep /\ Upd /\ Check /\ Finish
 Spec == Init /\ [][Next]_fvars
 =============================================================================
